@@ -245,7 +245,8 @@ Qed.
 Lemma find_matching_spec : forall s off len k, find_matching s off len = Some k ->
   In k (tree s) /\ len <= fst k.
 Proof.
-  intros s off len k. unfold find_matching. destruct (negb (bkey_ok off len)); [discriminate|].
+  intros s off0 len k. unfold find_matching, fm_lookup. generalize (hint_of s off0). intros off.
+  destruct (negb (bkey_ok off len)); [discriminate|].
   destruct (lookup_bounds (len, off) (tree s) None) as [lb ub] eqn:E.
   apply lookup_bounds_in in E. destruct E as [Hl Hu].
   assert (HL : forall x, lb = Some x -> In x (tree s)).
@@ -386,7 +387,7 @@ Proof. intros s z. unfold ensure_size, same_cfg; destruct (fsize s >=? z); repea
 Theorem blk_allocate_na_found : forall fuel s length_blk offset_blk opts ovr nl no,
   Inv s -> 0 < length_blk -> find_matching s offset_blk length_blk = Some (nl, no) ->
   let '(rc, s', off, olen) := blk_allocate_na fuel s length_blk offset_blk opts ovr in
-  (rc = 0 \/ rc = IWFS_ERROR_NOT_MMAPED) /\ off = no /\ length_blk <= olen /\ allocated_from s s' off olen /\
+  (rc = 0 \/ rc = IWFS_ERROR_NOT_MMAPED \/ rc = FSM_E_MAXOFF) /\ off = no /\ length_blk <= olen /\ allocated_from s s' off olen /\
   (has opts IWFSM_ALLOC_NO_OVERALLOCATE = true -> olen = length_blk).
 Proof.
   intros fuel s length_blk offset_blk opts ovr nl no Hi Hlen Hfm.
@@ -399,9 +400,10 @@ Proof.
             let '(rc, s3) := set_bit_status s2 no olen true false (strict s) in
             let s4 := if (rc =? 0) && negb (has opts IWFSM_ALLOC_NO_STATS) then stats_update s3 length_blk else s3 in
             let s5 := if (rc =? 0) && has opts IWFSM_SOLID_ALLOCATED_SPACE then solid s4 no olen else s4 in
+            let rc := if (rc =? 0) && has opts IWFSM_SOLID_ALLOCATED_SPACE then solid_rc s4 no olen else rc in
             let rc' := if (rc =? 0) && has opts IWFSM_SYNC_BMAP && mmap_all (vr s) && negb (fx_sync (vr s))
                        then IWFS_ERROR_NOT_MMAPED else rc in
-            (rc' = 0 \/ rc' = IWFS_ERROR_NOT_MMAPED) /\ no = no /\ length_blk <= olen /\ allocated_from s s5 no olen).
+            (rc' = 0 \/ rc' = IWFS_ERROR_NOT_MMAPED \/ rc' = FSM_E_MAXOFF) /\ no = no /\ length_blk <= olen /\ allocated_from s s5 no olen).
   { intros s2 olen Hs2 Hol Hon Hlo.
     pose proof (carve_tail s no nl olen Hi Hin Hol Hon) as Hc. rewrite <- Hs2 in Hc.
     pose proof Hc as (Hfr & _ & _). pose proof (frame_same_cfg _ _ Hfr) as Hcfg2. destruct Hfr as (F1 & F2 & F3 & _).
@@ -420,8 +422,11 @@ Proof.
     set (s5 := if has opts IWFSM_SOLID_ALLOCATED_SPACE then solid s4 no olen else s4).
     assert (H5 : Inv s5 /\ bm s5 = bm s4 /\ same_cfg s4 s5).
     { unfold s5. destruct (has opts IWFSM_SOLID_ALLOCATED_SPACE); [|split; [tauto|split; [reflexivity|apply same_cfg_refl]]]. unfold solid.
+      destruct (ensure_ok s4 (solid_sz s4 no olen)); [|split; [tauto|split; [reflexivity|apply same_cfg_refl]]].
       split; [apply Inv_ensure_size; tauto|apply ensure_fields]. }
-    split; [destruct (has opts IWFSM_SYNC_BMAP && mmap_all (vr s) && negb (fx_sync (vr s))); auto|].
+    split.
+    { unfold solid_rc. destruct (has opts IWFSM_SOLID_ALLOCATED_SPACE); [destruct (ensure_ok s4 (solid_sz s4 no olen))|];
+        simpl; destruct (has opts IWFSM_SYNC_BMAP && mmap_all (vr s) && negb (fx_sync (vr s))); auto. }
     split; [reflexivity|]. split; [exact Hlo|].
     unfold allocated_from. destruct H4 as (_ & A4 & C4). destruct H5 as (I5 & A5 & C5). destruct B3 as (A3 & C3).
     split; [exact I5|]. split; [eapply same_cfg_trans; [exact C3|eapply same_cfg_trans; eassumption]|].
@@ -884,6 +889,9 @@ Proof.
   split; [apply Inv_ensure_size; exact I|]. split; [eapply same_cfg_trans; eassumption|]. rewrite B. exact H.
 Qed.
 
+Lemma allocated_from_solid : forall s s' o n a b, allocated_from s s' o n -> allocated_from s (solid s' a b) o n.
+Proof. intros s s' o n a b H. unfold solid. destruct (ensure_ok s' (solid_sz s' a b)); [apply allocated_from_ensure|]; exact H. Qed.
+
 Lemma blk_allocate_al_unfold : forall fuel s length_blk opts,
   blk_allocate_al fuel s length_blk opts =
   let '(rc, s1, off, olen) := blk_allocate_aligned s length_blk U64MAX in
@@ -901,8 +909,8 @@ Proof. intros fuel; destruct fuel; reflexivity. Qed.
 (* outcome of _fsm_blk_allocate_lw when the bitmap may not grow *)
 Definition alloc_outcome (s : fsm) (length_blk opts : Z) (r : aret) : Prop :=
   let '(rc, s', off, olen) := r in
-  (rc = IWFS_ERROR_NO_FREE_SPACE /\ s' = s) \/
-  ((rc = 0 \/ rc = IWFS_ERROR_NOT_MMAPED) /\ allocated_from s s' off olen /\ length_blk <= olen /\
+  ((rc = IWFS_ERROR_NO_FREE_SPACE \/ rc = FSM_IW_ERROR_OVERFLOW) /\ s' = s) \/
+  ((rc = 0 \/ rc = IWFS_ERROR_NOT_MMAPED \/ rc = FSM_E_MAXOFF) /\ allocated_from s s' off olen /\ length_blk <= olen /\
    (has opts IWFSM_ALLOC_NO_OVERALLOCATE = true -> olen = length_blk) /\
    (has opts IWFSM_ALLOC_PAGE_ALIGNED = true -> off mod shr (aunit s) (bpow s) = 0 /\ olen = length_blk)).
 
@@ -911,15 +919,17 @@ Theorem blk_allocate_noext : forall s length_blk hint opts ovr, Inv s -> WF s ->
   alloc_outcome s length_blk opts (blk_allocate s length_blk hint opts ovr).
 Proof.
   intros s length_blk hint opts ovr Hi Hwf Hlen Hne. unfold blk_allocate.
+  destruct (fx_hint (vr s) && (length_blk >? FSM_BKEY_MAX)); [left; split; [right; reflexivity|reflexivity]|].
   destruct (has opts IWFSM_ALLOC_PAGE_ALIGNED) eqn:Epa.
   - rewrite blk_allocate_al_unfold.
     pose proof (blk_allocate_aligned_spec s length_blk U64MAX Hi Hwf Hlen) as H.
     destruct (blk_allocate_aligned s length_blk U64MAX) as [[[rc s1] off] olen].
     destruct H as [[-> ->]|(-> & -> & Ha & Hm & _)].
-    + rewrite Z.eqb_refl, Hne. left. split; reflexivity.
+    + rewrite Z.eqb_refl, Hne. left. split; [left; reflexivity|reflexivity].
     + replace (0 =? IWFS_ERROR_NO_FREE_SPACE) with false by reflexivity. simpl andb.
       destruct (has opts IWFSM_SOLID_ALLOCATED_SPACE); right.
-      * split; [left; reflexivity|]. split; [apply allocated_from_ensure; exact Ha|]. split; [lia|]. split; [reflexivity|].
+      * split; [unfold solid_rc; destruct (ensure_ok s1 (solid_sz s1 off length_blk)); auto|].
+        split; [apply allocated_from_solid; exact Ha|]. split; [lia|]. split; [reflexivity|].
         intros _. split; [exact Hm|reflexivity].
       * split; [left; reflexivity|]. split; [exact Ha|]. split; [lia|]. split; [reflexivity|].
         intros _. split; [exact Hm|reflexivity].
@@ -928,7 +938,7 @@ Proof.
       destruct (blk_allocate_na RESIZE_FUEL s length_blk hint opts ovr) as [[[rc s'] off] olen].
       destruct H as (H1 & H2 & H3 & H4 & H5). right. split; [exact H1|]. split; [exact H4|]. split; [exact H3|]. split; [exact H5|].
       intros H. congruence.
-    + rewrite blk_allocate_na_unfold, Efm, Hne. left. split; reflexivity.
+    + rewrite blk_allocate_na_unfold, Efm, Hne. left. split; [left; reflexivity|reflexivity].
 Qed.
 
 Lemma pow2_shl : forall n, 0 <= n -> pow2 n = 2 ^ n.
@@ -971,9 +981,10 @@ Proof.
   - apply Z.leb_gt in E0. pose proof (wf_bpow_lt s Hwf) as Hb.
     destruct (req_blocks s len Hwf ltac:(lia)) as (Hlb & Hle & Hru). cbv zeta in Hlb, Hle, Hru.
     set (lb := shr (IW_ROUNDUP len (pow2 (bpow s))) (bpow s)) in *.
-    pose proof (blk_allocate_noext s lb (shr addr (bpow s)) opts ovr Hi Hwf Hlb Hne) as H.
-    destruct (blk_allocate s lb (shr addr (bpow s)) opts ovr) as [[[rc s1] off] nlen]. unfold alloc_outcome in H.
-    destruct H as [[-> ->]|(Hrc & Ha & Hge & Hno & Hpa)].
+    pose proof (blk_allocate_noext s lb (blk_of s addr) opts ovr Hi Hwf Hlb Hne) as H.
+    destruct (blk_allocate s lb (blk_of s addr) opts ovr) as [[[rc s1] off] nlen]. unfold alloc_outcome in H.
+    destruct H as [[[-> | ->] ->]|(Hrc & Ha & Hge & Hno & Hpa)].
+    + left. split; [discriminate|left; reflexivity].
     + left. split; [discriminate|left; reflexivity].
     + destruct (rc =? 0) eqn:Erc.
       * apply Z.eqb_eq in Erc. subst rc. right. split; [reflexivity|]. exists off, nlen.
@@ -994,17 +1005,17 @@ Qed.
 
 (* ---- _fsm_deallocate *)
 Theorem deallocate_good : forall s addr len, Good s ->
-  live_range s (shr addr (bpow s)) (shr len (bpow s)) ->
+  live_range s (blk_of s addr) (blk_of s len) ->
   let '(rc, s') := deallocate s addr len in
   Good s' /\ same_cfg s s' /\
-  (s' = s \/ (rc = 0 /\ bm s' = set_range (bm s) (shr addr (bpow s)) (shr len (bpow s)) false)).
+  (s' = s \/ (rc = 0 /\ bm s' = set_range (bm s) (blk_of s addr) (blk_of s len) false)).
 Proof.
   intros s addr len Hg Hl. unfold deallocate.
   destruct (negb (Z.land addr (blkmask s) =? 0)); [split; [exact Hg|split; [apply same_cfg_refl|left; reflexivity]]|].
-  destruct (fx_short (vr s) && (shr len (bpow s) <? 1)); [split; [exact Hg|split; [apply same_cfg_refl|left; reflexivity]]|].
-  destruct (touches_meta s (shr addr (bpow s)) (shr len (bpow s))); [split; [exact Hg|split; [apply same_cfg_refl|left; reflexivity]]|].
+  destruct (fx_short (vr s) && (blk_of s len <? 1)); [split; [exact Hg|split; [apply same_cfg_refl|left; reflexivity]]|].
+  destruct (touches_meta s (blk_of s addr) (blk_of s len)); [split; [exact Hg|split; [apply same_cfg_refl|left; reflexivity]]|].
   pose proof (blk_deallocate_good s _ _ Hg Hl) as H.
-  destruct (blk_deallocate s (shr addr (bpow s)) (shr len (bpow s))) as [rc s'].
+  destruct (blk_deallocate s (blk_of s addr) (blk_of s len)) as [rc s'].
   destruct H as (H1 & H2 & H3 & H4). split; [exact H2|]. split; [exact H3|]. right. split; assumption.
 Qed.
 
@@ -1025,14 +1036,16 @@ Qed.
 
 (* ---- _fsm_reallocate *)
 Theorem reallocate_good : forall s nlen addr olen opts ovr, Good s -> has opts IWFSM_ALLOC_NO_EXTEND = true ->
-  0 <= nlen < 2 ^ 62 -> live_range s (shr addr (bpow s)) (shr olen (bpow s)) ->
+  0 <= nlen < 2 ^ 62 -> live_range s (blk_of s addr) (blk_of s olen) ->
   Good (state_of (reallocate s nlen addr olen opts ovr)) /\ same_cfg s (state_of (reallocate s nlen addr olen opts ovr)).
 Proof.
   intros s nlen addr olen opts ovr Hg Hne Hnl Hl. pose proof Hg as (Hi & Hwf & Hfx). unfold reallocate.
   destruct (negb (Z.land addr (blkmask s) =? 0) || negb (Z.land olen (blkmask s) =? 0)); [split; [exact Hg|apply same_cfg_refl]|].
   set (nb := shr (IW_ROUNDUP nlen (pow2 (bpow s))) (bpow s)).
-  set (ob := shr olen (bpow s)) in *. set (ab := shr addr (bpow s)) in *.
+  set (ob := blk_of s olen) in *. set (ab := blk_of s addr) in *.
   destruct (nb =? ob) eqn:Eq; [split; [exact Hg|apply same_cfg_refl]|].
+  destruct (fx_realloc (vr s) && (ob <? 1)); [split; [exact Hg|apply same_cfg_refl]|].
+  destruct (fx_realloc (vr s) && touches_meta s ab ob); [split; [exact Hg|apply same_cfg_refl]|].
   destruct (nb <? ob) eqn:Elt.
   - apply Z.ltb_lt in Elt.
     assert (Hnb : 0 <= nb).
@@ -1048,11 +1061,14 @@ Proof.
     assert (Hpos : 0 < nb) by (destruct Hl as (_ & L2 & _); lia).
     pose proof (blk_allocate_noext s nb ab opts ovr Hi Hwf Hpos Hne) as H.
     destruct (blk_allocate s nb ab opts ovr) as [[[rc s1] naddr] sp]. unfold alloc_outcome in H.
-    destruct H as [[-> ->]|(Hrc & Ha & _)].
+    destruct H as [[[-> | ->] ->]|(Hrc & Ha & _)].
+    + simpl. split; [exact Hg|apply same_cfg_refl].
     + simpl. split; [exact Hg|apply same_cfg_refl].
     + destruct (negb (rc =? 0)) eqn:Erc.
       * simpl. destruct Ha as (I & C & _). split; [apply (good_cfg s); assumption|exact C].
-      * set (s1' := if negb (naddr =? ab) then ensure_size s1 (shl naddr (bpow s) + olen) else s1).
+      * destruct (negb (naddr =? ab) && negb (ensure_ok s1 (shl naddr (bpow s) + uw 64 olen))).
+        { simpl. destruct Ha as (I & C & _). split; [apply (good_cfg s); assumption|exact C]. }
+        set (s1' := if negb (naddr =? ab) then ensure_size s1 (shl naddr (bpow s) + uw 64 olen) else s1).
         assert (Ha' : allocated_from s s1' naddr sp).
         { unfold s1'. destruct (negb (naddr =? ab)); [apply allocated_from_ensure|]; exact Ha. }
         pose proof Ha' as (I & C & _).
@@ -1077,7 +1093,8 @@ Proof.
   intros s st mm Hc Hlen Hu32 Hwf Hfx. unfold reopen, disk_bm. rewrite Hc. apply hs_iff in Hc. destruct Hc as [Ec1 Ec2].
   rewrite Ec1, Ec2.
   set (s0 := mkFsm (bm s) [] 0 0 (bmoff s) (bmlen s) (hdrlen s) (bpow s) (aunit s) (fsize s) (p_crzsum s) (p_crznum s)
-                   (p_crzsum s) (p_crznum s) (bmoff s) (bmlen s) st (mkVariant (fx_lfbk (vr s)) (fx_strict (vr s)) (fx_sync (vr s)) (fx_short (vr s)) mm)).
+                   (p_crzsum s) (p_crznum s) (bmoff s) (bmlen s) (maxoff s) st (mkVariant (fx_lfbk (vr s)) (fx_strict (vr s)) (fx_sync (vr s)) (fx_short (vr s))
+                   (fx_realloc (vr s)) (fx_hint (vr s)) (fx_leak (vr s)) mm)).
   destruct (load_fsm_spec s0 Hlen Hu32) as (F & S & M & L).
   pose proof (frame_same_cfg _ _ F) as (C1 & C2 & C3 & C4 & _). destruct F as (B1 & _).
   split; [|split].
@@ -1097,8 +1114,8 @@ Definition client_ok (s : fsm) (o : op) : Prop :=
   match o with
   | OAlloc len hint opts ovr => has opts IWFSM_ALLOC_NO_EXTEND = true /\ len < 2 ^ 62
   | ORealloc nlen addr olen opts ovr => has opts IWFSM_ALLOC_NO_EXTEND = true /\ 0 <= nlen < 2 ^ 62 /\
-                                        live_range s (shr addr (bpow s)) (shr olen (bpow s))
-  | OFree addr len => live_range s (shr addr (bpow s)) (shr len (bpow s))
+                                        live_range s (blk_of s addr) (blk_of s olen)
+  | OFree addr len => live_range s (blk_of s addr) (blk_of s len)
   | OClear _ => False
   | OSync => True
   | OCloseReopen notrim _ _ => notrim = true
@@ -1149,8 +1166,10 @@ Proof.
   apply all_range_spec; [lia|lia|lia|exact H5].
 Qed.
 
-Definition v_current : variant := mkVariant false false false false false.
-Definition v_fixed : variant := mkVariant true true true true false.
+Definition v_current : variant := mkVariant false false false false false false false false.
+Definition v_fixed : variant := mkVariant true true true true true true true false.
+(* /repo at the time of the deepening round: the four fixes of the earlier rounds committed, the three of this round not yet *)
+Definition v_head : variant := mkVariant true true true true false false false false.
 Definition fresh (v : variant) (strict' : bool) : fsm := snd (open_new v 6 0 0 strict').
 (* six 4-block regions, then exactly the free tail (which is the cached extent), then two adjacent releases *)
 Definition lfbk_witness : list op :=
@@ -1166,8 +1185,8 @@ Definition client_okb (s : fsm) (o : op) : bool :=
   match o with
   | OAlloc len hint opts ovr => has opts IWFSM_ALLOC_NO_EXTEND && (len <? 2 ^ 62)
   | ORealloc nlen addr olen opts ovr => has opts IWFSM_ALLOC_NO_EXTEND && (0 <=? nlen) && (nlen <? 2 ^ 62) &&
-                                        live_rangeb s (shr addr (bpow s)) (shr olen (bpow s))
-  | OFree addr len => live_rangeb s (shr addr (bpow s)) (shr len (bpow s))
+                                        live_rangeb s (blk_of s addr) (blk_of s olen)
+  | OFree addr len => live_rangeb s (blk_of s addr) (blk_of s len)
   | OClear _ => false
   | OSync => true
   | OCloseReopen notrim _ _ => notrim
@@ -1215,11 +1234,11 @@ Proof. vm_compute. reflexivity. Qed.
 
 (* ---- invalid releases *)
 Theorem deallocate_refuses : forall s addr len,
-  negb (Z.land addr (blkmask s) =? 0) = true \/ touches_meta s (shr addr (bpow s)) (shr len (bpow s)) = true ->
+  negb (Z.land addr (blkmask s) =? 0) = true \/ touches_meta s (blk_of s addr) (blk_of s len) = true ->
   fst (deallocate s addr len) <> 0 /\ snd (deallocate s addr len) = s.
 Proof.
   intros s addr len H. unfold deallocate. destruct (negb (Z.land addr (blkmask s) =? 0)); [split; [discriminate|reflexivity]|].
-  destruct (fx_short (vr s) && (shr len (bpow s) <? 1)); [split; [discriminate|reflexivity]|].
+  destruct (fx_short (vr s) && (blk_of s len <? 1)); [split; [discriminate|reflexivity]|].
   destruct H as [H|H]; [discriminate|]. rewrite H. split; [discriminate|reflexivity].
 Qed.
 
@@ -1270,7 +1289,8 @@ Proof.
   intros s st mm Hc Hlen Hu32 Hwf Hfx. split; [apply reopen_good; assumption|]. unfold reopen, disk_bm. rewrite Hc.
   apply hs_iff in Hc. destruct Hc as [Ec1 Ec2]. rewrite Ec1, Ec2.
   set (s0 := mkFsm (bm s) [] 0 0 (bmoff s) (bmlen s) (hdrlen s) (bpow s) (aunit s) (fsize s) (p_crzsum s) (p_crznum s)
-                   (p_crzsum s) (p_crznum s) (bmoff s) (bmlen s) st (mkVariant (fx_lfbk (vr s)) (fx_strict (vr s)) (fx_sync (vr s)) (fx_short (vr s)) mm)).
+                   (p_crzsum s) (p_crznum s) (bmoff s) (bmlen s) (maxoff s) st (mkVariant (fx_lfbk (vr s)) (fx_strict (vr s)) (fx_sync (vr s)) (fx_short (vr s))
+                   (fx_realloc (vr s)) (fx_hint (vr s)) (fx_leak (vr s)) mm)).
   destruct (load_fsm_spec s0 Hlen Hu32) as (F & _ & M & _). destruct F as (B1 & B2 & B3 & B4 & B5 & _).
   split; [exact B1|]. split; [exact B2|]. split; [exact B3|]. split; [exact B4|]. split; [exact B5|]. exact M.
 Qed.
@@ -1290,15 +1310,15 @@ Proof.
 Qed.
 
 (* a release of less than one block is refused (code after fixes/fsm-dealloc-short.diff) ... *)
-Theorem short_release_refused : forall s addr len, fx_short (vr s) = true -> shr len (bpow s) < 1 ->
+Theorem short_release_refused : forall s addr len, fx_short (vr s) = true -> blk_of s len < 1 ->
   fst (deallocate s addr len) <> 0 /\ snd (deallocate s addr len) = s.
 Proof.
   intros s addr len Hfx Hl. unfold deallocate. destruct (negb (Z.land addr (blkmask s) =? 0)); [split; [discriminate|reflexivity]|].
-  rewrite Hfx. replace (shr len (bpow s) <? 1) with true by lia. split; [discriminate|reflexivity].
+  rewrite Hfx. replace (blk_of s len <? 1) with true by lia. split; [discriminate|reflexivity].
 Qed.
 (* ... and accepted by the code as it is, leaving an empty extent in the tree *)
-Theorem short_release_refused_refuted : exists s addr len, shr len (bpow s) < 1 /\
-  fst (deallocate s addr len) = 0 /\ In (0, shr addr (bpow s)) (tree (snd (deallocate s addr len))).
+Theorem short_release_refused_refuted : exists s addr len, blk_of s len < 1 /\
+  fst (deallocate s addr len) = 0 /\ In (0, blk_of s addr) (tree (snd (deallocate s addr len))).
 Proof.
   exists (run (fresh v_current false) [OAlloc 256 0 11 false; OAlloc 256 0 11 false]), 384, 10.
   split; [dec_goal|]. split; [vm_compute; reflexivity|vm_compute; left; reflexivity].
@@ -1356,6 +1376,7 @@ Proof.
     [left; split; [discriminate|left; reflexivity]|].
   destruct (nbmlen <? bmlen s) eqn:E2; [left; split; [discriminate|left; reflexivity]|]. apply Z.ltb_ge in E2.
   destruct (nbmlen * 8 <? shr (nbmoff + nbmlen) (bpow s) + 1) eqn:E3; [left; split; [discriminate|left; reflexivity]|]. apply Z.ltb_ge in E3.
+  destruct (negb (ensure_ok s (nbmoff + nbmlen))); [left; split; [discriminate|left; reflexivity]|].
   set (s0 := ensure_size s (nbmoff + nbmlen)).
   simpl andb. destruct (negb (IW_RANGES_OVERLAP (bmoff s) (bmoff s + bmlen s) nbmoff (nbmoff + nbmlen) =? 0)) eqn:Eov;
     [left; split; [discriminate|right; reflexivity]|].
@@ -1442,6 +1463,40 @@ Proof.
   destruct ((off <=? i) && (i <? off + olen)); [reflexivity|apply B5; exact Hi].
 Qed.
 
+(* giving back an area that was just carved out of the free space (fixes/fsm-resize-leak.diff) *)
+Lemma carved_release : forall s s1 off n, Good s -> BmArea s -> allocated_from s s1 off n ->
+  Inv (snd (blk_deallocate s1 off n)) /\ BmArea (snd (blk_deallocate s1 off n)) /\ same_cfg s (snd (blk_deallocate s1 off n)).
+Proof.
+  intros s s1 off n Hg Hba Ha. pose proof Ha as (I1 & C1 & A1 & A2 & A3 & A4 & A5).
+  assert (Hg1 : Good s1) by (apply (good_cfg s); assumption).
+  pose proof C1 as (V1 & V2 & V3 & V4 & V5 & V6 & V7).
+  assert (Hl1 : len_z (bm s) = nbits s) by (destruct Hg as (Hi & _); apply (inv_len s Hi)).
+  assert (Hlive : live_range s1 off n).
+  { split; [exact A1|]. split; [exact A2|]. split; [unfold nbits in *; rewrite V4; exact A3|].
+    intros i Hi. rewrite A5. rewrite getb_set_range by lia.
+    replace ((off <=? i) && (i <? off + n)) with true; [reflexivity|].
+    symmetry. apply andb_true_iff. split; [apply Z.leb_le|apply Z.ltb_lt]; lia. }
+  pose proof (blk_deallocate_good s1 off n Hg1 Hlive) as H.
+  destruct (blk_deallocate s1 off n) as [rc s2]. destruct H as (_ & (I2 & _) & C2 & B2). simpl.
+  split; [exact I2|]. split; [|eapply same_cfg_trans; eassumption].
+  destruct Hba as (B1 & B3 & B4 & B5 & B6). destruct C2 as (W1 & W2 & W3 & W4 & W5 & W6 & W7).
+  unfold BmArea, nbits in *. rewrite W2, W4, W5, V2, V4, V5.
+  split; [exact B1|]. split; [exact B3|]. split; [exact B4|]. split; [exact B5|].
+  intros i Hi. rewrite B2, A5.
+  assert (H0 : 0 <= shr (bmoff s) (bpow s)) by (unfold shr; apply Z.shiftr_nonneg; exact B1).
+  assert (Hout : ~ (off <= i < off + n)).
+  { intros Hc. specialize (B6 i Hi). rewrite A4 in B6 by exact Hc. discriminate. }
+  rewrite getb_set_range by (rewrite ?set_range_length; lia).
+  replace ((off <=? i) && (i <? off + n)) with false
+    by (symmetry; destruct (off <=? i) eqn:Q1; [|reflexivity]; destruct (i <? off + n) eqn:Q2; [|reflexivity];
+        apply Z.leb_le in Q1; apply Z.ltb_lt in Q2; exfalso; apply Hout; lia).
+  rewrite getb_set_range by lia.
+  replace ((off <=? i) && (i <? off + n)) with false
+    by (symmetry; destruct (off <=? i) eqn:Q1; [|reflexivity]; destruct (i <? off + n) eqn:Q2; [|reflexivity];
+        apply Z.leb_le in Q1; apply Z.ltb_lt in Q2; exfalso; apply Hout; lia).
+  apply B6. exact Hi.
+Qed.
+
 Definition resize_outcome (s : fsm) (r : Z * fsm) : Prop :=
   let '(rc, s') := r in
   (rc = 0 /\ s' = s) \/ (rc <> 0 /\ Inv s' /\ BmArea s' /\ same_cfg s s') \/
@@ -1493,6 +1548,7 @@ Proof.
     pose proof (init_lw_reloc s nbmoff nbmlen Hi Hfx Hbp Hbl0 ltac:(lia) B1 B2 B3 B4 B5
                   ltac:(intros i Hi1 Hi2; lia) Hmax) as Ho.
     destruct (init_lw s nbmoff nbmlen) as [rc s'] eqn:Ei. unfold init_outcome in Ho.
+    replace (fx_leak (vr s) && negb (rc =? 0) && false) with false by (rewrite andb_false_r; reflexivity). cbv iota.
     destruct Ho as [(Hrc & [->| ->])|(-> & I' & O1 & O2 & O3 & O4 & O5 & O6 & O7 & O8)].
     + right; left. split; [exact Hrc|]. split; [exact Hi|]. split; [exact Hba|apply same_cfg_refl].
     + right; left. split; [exact Hrc|]. destruct (ensure_fields s (nbmoff + nbmlen)) as [E C].
@@ -1541,12 +1597,18 @@ Proof.
     pose proof (init_lw_reloc s1 (shl off (bpow s)) nbmlen I1 ltac:(rewrite V1; exact Hfx) ltac:(rewrite V2; exact Hbp)
                   ltac:(rewrite V4; exact Hbl0) ltac:(rewrite shl_mul by lia; nia) D1 D2 D3 D4 D5 Hnew Hmax) as Ho.
     destruct (init_lw s1 (shl off (bpow s)) nbmlen) as [rc s'] eqn:Ei. unfold init_outcome in Ho.
+    assert (HgS : Good s) by (split; [exact Hi|split; [exact Hwf'|exact Hfx]]).
     destruct Ho as [(Hrc & [->| ->])|(-> & I' & O1 & O2 & O3 & O4 & O5 & O6 & O7 & O8)].
-    + right; left. split; [exact Hrc|]. split; [exact I1|]. split; [exact Hba1|exact C1].
-    + right; left. split; [exact Hrc|]. destruct (ensure_fields s1 (shl off (bpow s) + nbmlen)) as [E C].
-      split; [apply Inv_ensure_size; exact I1|]. split; [|eapply same_cfg_trans; eassumption].
-      destruct C as (_ & C2 & _ & C4 & C5 & _). unfold BmArea, nbits. rewrite E, C2, C4, C5. exact Hba1.
-    + right; right. split; [reflexivity|]. split; [exact I'|].
+    + destruct (fx_leak (vr s) && negb (rc =? 0) && true).
+      * right; left. split; [exact Hrc|]. apply (carved_release s s1 off _ HgS Hba Ha).
+      * right; left. split; [exact Hrc|]. split; [exact I1|]. split; [exact Hba1|exact C1].
+    + destruct (fx_leak (vr s) && negb (rc =? 0) && true).
+      * right; left. split; [exact Hrc|]. apply (carved_release s _ off _ HgS Hba). apply allocated_from_ensure. exact Ha.
+      * right; left. split; [exact Hrc|]. destruct (ensure_fields s1 (shl off (bpow s) + nbmlen)) as [E C].
+        split; [apply Inv_ensure_size; exact I1|]. split; [|eapply same_cfg_trans; eassumption].
+        destruct C as (_ & C2 & _ & C4 & C5 & _). unfold BmArea, nbits. rewrite E, C2, C4, C5. exact Hba1.
+    + replace (fx_leak (vr s) && negb (0 =? 0) && true) with false by (simpl; rewrite andb_false_r; reflexivity). cbv iota.
+      right; right. split; [reflexivity|]. split; [exact I'|].
       split; [|rewrite O2; repeat split; try congruence; lia].
       unfold BmArea. rewrite O1, O2, O4, O8. unfold nbits. rewrite O2. rewrite V2 in *. rewrite Hshr.
       assert (Hin : off + shr nbmlen (bpow s) <= nbmlen * 8).
@@ -1592,7 +1654,12 @@ Qed.
 Lemma find_matching_none : forall s off len, 0 < len -> bkey_ok off len = true -> find_matching s off len = None ->
   forall x, In x (tree s) -> klt x (len, off).
 Proof.
-  intros s off len Hlen Hok. unfold find_matching. rewrite Hok. simpl negb. cbv iota.
+  intros s off len Hlen Hok. unfold find_matching, fm_lookup.
+  assert (Hh : hint_of s off = off).
+  { unfold hint_of. unfold bkey_ok in Hok. apply andb_true_iff in Hok. destruct Hok as [Ho _]. apply Z.leb_le in Ho.
+    replace (off >? FSM_BKEY_MAX) with false by (symmetry; rewrite Z.gtb_ltb; apply Z.ltb_ge; exact Ho).
+    rewrite andb_false_r. reflexivity. }
+  rewrite Hh, Hok. simpl negb. cbv iota.
   destruct (lookup_bounds (len, off) (tree s) None) as [lb ub] eqn:E.
   apply lookup_bounds_ub in E. destruct E as [Hn Hs].
   destruct ub as [u|]; [|intros _; apply Hn; reflexivity].
@@ -1801,6 +1868,7 @@ Proof.
     [apply geo_refl|].
   destruct (nbmlen <? bmlen s); [apply geo_refl|].
   destruct (nbmlen * 8 <? shr (nbmoff + nbmlen) (bpow s) + 1); [apply geo_refl|].
+  destruct (negb (ensure_ok s (nbmoff + nbmlen))); [apply geo_refl|].
   destruct (negb (bmlen s =? 0) && negb (IW_RANGES_OVERLAP (bmoff s) (bmoff s + bmlen s) nbmoff (nbmoff + nbmlen) =? 0));
     [apply geo_ensure_size|].
   set (nbm := if negb (bmlen s =? 0) then bm s ++ repeat false (Z.to_nat (8 * (nbmlen - bmlen s)))
@@ -1834,38 +1902,44 @@ Proof.
             else if rc =? IWFS_ERROR_NO_FREE_SPACE
                  then (IW_ROUNDUP (bmlen s * pow2 (bpow s) * 8) (aunit s), IW_ROUNDUP size (aunit s))
                  else (0, IW_ROUNDUP size (aunit s))) as [nbmoff nbmlen'].
-  eapply geo_trans; [exact H1|apply geo_init_lw].
+  eapply geo_trans; [exact H1|].
+  pose proof (geo_init_lw s1 nbmoff nbmlen') as H2. destruct (init_lw s1 nbmoff nbmlen') as [rc2 s2]. simpl in H2.
+  destruct (fx_leak (vr s) && negb (rc2 =? 0) && (rc =? 0)); [|exact H2].
+  simpl. eapply geo_trans; [exact H2|apply geo_blk_deallocate].
 Qed.
 
 Lemma wf_geo : forall s s', WF s -> geo s s' -> WF s'.
 Proof. intros s s' [Hb Ha] [E1 E2]. split; rewrite ?E1, ?E2; assumption. Qed.
 
-(* _fsm_ensure_size_lw really reaches the size asked for (page round-up never falls short) *)
-Lemma ensure_size_ge : forall s z, WF s -> 0 <= z -> z + aunit s < 2 ^ 64 -> z <= fsize (ensure_size s z).
+(* _fsm_ensure_size_lw, when it returns 0, really reaches the size asked for: _exfile_ensure_size_lw refuses a target below
+   the request (page round-up that wrapped, or the maxoff cap) *)
+Lemma ensure_size_ge : forall s z, ensure_ok s z = true -> z <= fsize (ensure_size s z).
 Proof.
-  intros s z [Hb (j & Hj & Hr)] Hz Hlt. unfold ensure_size. destruct (fsize s >=? z) eqn:E.
+  intros s z H. unfold ensure_ok in H. unfold ensure_size. destruct (fsize s >=? z) eqn:E.
   - rewrite Z.geb_leb in E. apply Z.leb_le in E. exact E.
-  - simpl. rewrite Hj in *. destruct (roundup_pow2_props z j ltac:(lia) Hz Hlt) as [H _]. lia.
+  - simpl in H. apply Z.leb_le in H. exact H.
 Qed.
 
 Definition backed (s' : fsm) (off olen : Z) : Prop := shl off (bpow s') + shl olen (bpow s') <= fsize s'.
-Definition nowrap (s : fsm) (off olen : Z) : Prop :=
-  0 <= shl off (bpow s) + shl olen (bpow s) /\ shl off (bpow s) + shl olen (bpow s) + aunit s < 2 ^ 64.
 
-Lemma solid_backed : forall s off olen, WF s -> nowrap s off olen -> backed (solid s off olen) off olen.
+Lemma geo_solid : forall s o n, geo s (solid s o n).
+Proof. intros s o n. unfold solid. destruct (ensure_ok s (solid_sz s o n)); [apply geo_ensure_size|apply geo_refl]. Qed.
+
+Lemma solid_backed : forall s off olen, solid_rc s off olen = 0 -> backed (solid s off olen) off olen.
 Proof.
-  intros s off olen Hwf [H0 H1]. unfold backed, solid.
-  destruct (geo_ensure_size s (shl off (bpow s) + shl olen (bpow s))) as [E _]. rewrite E.
-  apply ensure_size_ge; assumption.
+  intros s off olen H. unfold solid_rc in H. unfold backed, solid.
+  destruct (ensure_ok s (solid_sz s off olen)) eqn:E; [|discriminate H].
+  destruct (geo_ensure_size s (solid_sz s off olen)) as [E1 _]. rewrite E1.
+  apply (ensure_size_ge s (solid_sz s off olen) E).
 Qed.
 
-Lemma na_found_solid : forall fuel s length_blk offset_blk opts ovr nlength noff, WF s ->
+Lemma na_found_solid : forall fuel s length_blk offset_blk opts ovr nlength noff,
   has opts IWFSM_SOLID_ALLOCATED_SPACE = true ->
   find_matching s offset_blk length_blk = Some (nlength, noff) ->
   let '(rc, s', off, olen) := blk_allocate_na fuel s length_blk offset_blk opts ovr in
-  geo s s' /\ (rc = 0 -> nowrap s off olen -> backed s' off olen).
+  geo s s' /\ (rc = 0 -> backed s' off olen).
 Proof.
-  intros fuel s length_blk offset_blk opts ovr nlength noff Hwf Hso Efm.
+  intros fuel s length_blk offset_blk opts ovr nlength noff Hso Efm.
   rewrite blk_allocate_na_unfold, Efm. cbv zeta.
   set (s1 := del_fbk2 s (nlength, noff)).
   set (P := if nlength >? length_blk then
@@ -1887,17 +1961,18 @@ Proof.
     assert (G4 : geo s s4).
     { eapply geo_trans; [exact G2|]. eapply geo_trans; [exact G3|]. unfold s4.
       destruct (negb (has opts IWFSM_ALLOC_NO_STATS)); [apply geo_stats|apply geo_refl]. }
-    split; [eapply geo_trans; [exact G4|apply geo_ensure_size]|]. intros _ Hnw.
-    apply solid_backed; [exact (wf_geo _ _ Hwf G4)|]. destruct G4 as [E1 E2]. unfold nowrap. rewrite E1, E2. exact Hnw.
-  - split; [eapply geo_trans; [exact G2|exact G3]|]. intros H. apply Z.eqb_neq in Erc. contradiction.
+    split; [eapply geo_trans; [exact G4|apply geo_solid]|]. intros H0.
+    apply solid_backed. destruct (solid_rc s4 noff olen =? 0) eqn:Es; [apply Z.eqb_eq; exact Es|].
+    simpl in H0. exact H0.
+  - split; [eapply geo_trans; [exact G2|exact G3]|]. intros H. rewrite Erc in H. simpl in H. apply Z.eqb_neq in Erc. contradiction.
 Qed.
 
-Lemma blk_allocate_na_solid : forall fuel s length_blk offset_blk opts ovr, WF s ->
+Lemma blk_allocate_na_solid : forall fuel s length_blk offset_blk opts ovr,
   has opts IWFSM_SOLID_ALLOCATED_SPACE = true ->
   let '(rc, s', off, olen) := blk_allocate_na fuel s length_blk offset_blk opts ovr in
-  geo s s' /\ (rc = 0 -> nowrap s off olen -> backed s' off olen).
+  geo s s' /\ (rc = 0 -> backed s' off olen).
 Proof.
-  induction fuel as [|f IH]; intros s length_blk offset_blk opts ovr Hwf Hso;
+  induction fuel as [|f IH]; intros s length_blk offset_blk opts ovr Hso;
     destruct (find_matching s offset_blk length_blk) as [[nlength noff]|] eqn:Efm;
     try (apply na_found_solid with (nlength := nlength) (noff := noff); assumption); rewrite blk_allocate_na_unfold, Efm;
     (destruct (has opts IWFSM_ALLOC_NO_EXTEND); [cbv beta iota; split; [apply geo_refl|intros H; discriminate H]|]).
@@ -1906,25 +1981,23 @@ Proof.
     destruct (resize_fsm_bitmap s (shl (bmlen s) 1)) as [rc s1]. simpl in Hg.
     destruct (negb (rc =? 0)) eqn:Erc.
     + cbv beta iota. split; [exact Hg|]. intros ->. discriminate Erc.
-    + specialize (IH s1 length_blk offset_blk opts ovr (wf_geo _ _ Hwf Hg) Hso).
+    + specialize (IH s1 length_blk offset_blk opts ovr Hso).
       destruct (blk_allocate_na f s1 length_blk offset_blk opts ovr) as [[[rc' s'] off] olen].
-      destruct IH as [G B]. split; [eapply geo_trans; eassumption|].
-      intros Hrc Hnw. apply B; [exact Hrc|]. destruct Hg as [E1 E2]. unfold nowrap. rewrite E1, E2. exact Hnw.
+      destruct IH as [G B]. split; [eapply geo_trans; eassumption|exact B].
 Qed.
 
-Lemma blk_allocate_al_solid : forall fuel s length_blk opts, WF s ->
+Lemma blk_allocate_al_solid : forall fuel s length_blk opts,
   has opts IWFSM_SOLID_ALLOCATED_SPACE = true ->
   let '(rc, s', off, olen) := blk_allocate_al fuel s length_blk opts in
-  geo s s' /\ (rc = 0 -> nowrap s off olen -> backed s' off olen).
+  geo s s' /\ (rc = 0 -> backed s' off olen).
 Proof.
-  induction fuel as [|f IH]; intros s length_blk opts Hwf Hso; rewrite blk_allocate_al_unfold;
+  induction fuel as [|f IH]; intros s length_blk opts Hso; rewrite blk_allocate_al_unfold;
     pose proof (geo_blk_allocate_aligned s length_blk U64MAX) as G1;
     destruct (blk_allocate_aligned s length_blk U64MAX) as [[[rc s1] off] olen]; simpl in G1;
     (destruct (rc =? IWFS_ERROR_NO_FREE_SPACE) eqn:E1;
      [destruct (has opts IWFSM_ALLOC_NO_EXTEND); [cbv beta iota; split; [exact G1|intros H; discriminate H]|]
      |rewrite Hso; destruct (rc =? 0) eqn:E0; simpl andb; cbv beta iota;
-      [split; [eapply geo_trans; [exact G1|apply geo_ensure_size]|]; intros _ Hnw;
-       apply solid_backed; [exact (wf_geo _ _ Hwf G1)|]; destruct G1 as [X1 X2]; unfold nowrap; rewrite X1, X2; exact Hnw
+      [split; [eapply geo_trans; [exact G1|apply geo_solid]|]; intros H0; apply solid_backed; exact H0
       |split; [exact G1|]; intros H; apply Z.eqb_neq in E0; contradiction]]).
   - cbv beta iota. split; [exact G1|intros H; discriminate H].
   - pose proof (geo_resize s1 (shl (bmlen s1) 1)) as Hg.
@@ -1932,30 +2005,30 @@ Proof.
     assert (G2 : geo s s2) by (eapply geo_trans; eassumption).
     destruct (negb (rc2 =? 0)) eqn:Erc.
     + cbv beta iota. split; [exact G2|]. intros ->. discriminate Erc.
-    + specialize (IH s2 length_blk opts (wf_geo _ _ Hwf G2) Hso).
+    + specialize (IH s2 length_blk opts Hso).
       destruct (blk_allocate_al f s2 length_blk opts) as [[[rc' s'] off'] olen'].
-      destruct IH as [G B]. split; [eapply geo_trans; eassumption|].
-      intros Hrc Hnw. apply B; [exact Hrc|]. destruct G2 as [X1 X2]. unfold nowrap. rewrite X1, X2. exact Hnw.
+      destruct IH as [G B]. split; [eapply geo_trans; eassumption|exact B].
 Qed.
 
-(* _fsm_allocate with IWFSM_SOLID_ALLOCATED_SPACE, every flag combination, every state, bitmap growth included:
-   the region [a, a + l) - l is the RETURNED length - lies inside the file.  (The two hypotheses on a + l exclude the
-   64-bit wrap of the size computation; they follow from < 2^32 blocks of < 2^31 bytes.) *)
-Theorem allocate_solid_backed : forall s len addr opts ovr, WF s ->
+(* _fsm_allocate with IWFSM_SOLID_ALLOCATED_SPACE, every flag combination, every state, bitmap growth and a size limit
+   (maxoff) included: when it returns 0 the region [a, a + l) - l is the RETURNED length - lies inside the file.  No
+   hypothesis on the sizes: _exfile_ensure_size_lw refuses a target below the request. *)
+Theorem allocate_solid_backed : forall s len addr opts ovr,
   has opts IWFSM_SOLID_ALLOCATED_SPACE = true ->
   let '(rc, s', a, l) := allocate s len addr opts ovr in
-  rc = 0 -> 0 <= a + l -> a + l + aunit s < 2 ^ 64 -> a + l <= fsize s' /\ bpow s' = bpow s /\ aunit s' = aunit s.
+  rc = 0 -> a + l <= fsize s' /\ bpow s' = bpow s /\ aunit s' = aunit s.
 Proof.
-  intros s len addr opts ovr Hwf Hso. unfold allocate.
+  intros s len addr opts ovr Hso. unfold allocate.
   destruct (len <=? 0); [intros H; discriminate H|].
   set (lb := shr (IW_ROUNDUP len (pow2 (bpow s))) (bpow s)).
-  assert (H : let '(rc, s', off, olen) := blk_allocate s lb (shr addr (bpow s)) opts ovr in
-              geo s s' /\ (rc = 0 -> nowrap s off olen -> backed s' off olen)).
-  { unfold blk_allocate. destruct (has opts IWFSM_ALLOC_PAGE_ALIGNED);
+  assert (H : let '(rc, s', off, olen) := blk_allocate s lb (blk_of s addr) opts ovr in
+              geo s s' /\ (rc = 0 -> backed s' off olen)).
+  { unfold blk_allocate. destruct (fx_hint (vr s) && (lb >? FSM_BKEY_MAX)); [split; [apply geo_refl|intros H; discriminate H]|].
+    destruct (has opts IWFSM_ALLOC_PAGE_ALIGNED);
       [apply blk_allocate_al_solid|apply blk_allocate_na_solid]; assumption. }
-  destruct (blk_allocate s lb (shr addr (bpow s)) opts ovr) as [[[rc s1] off] nlen].
+  destruct (blk_allocate s lb (blk_of s addr) opts ovr) as [[[rc s1] off] nlen].
   destruct H as [[E1 E2] B]. destruct (rc =? 0) eqn:E0.
-  - intros _ H0 H1. apply Z.eqb_eq in E0. specialize (B E0 (conj H0 H1)). unfold backed in B. rewrite E1 in B.
+  - intros _. apply Z.eqb_eq in E0. specialize (B E0). unfold backed in B. rewrite E1 in B.
     split; [exact B|split; assumption].
   - intros H. apply Z.eqb_neq in E0. contradiction.
 Qed.
